@@ -9,7 +9,9 @@
   Proved here:
     * every rounding primitive the pipeline uses is the exact rational result
       rounded half away from zero at the stated precision (the three `*_point`
-      theorems), and the non-rounding primitives are lossless;
+      theorems; `convert_point` for a foreign item price: one rounding of
+      price × rate at the document currency's precision), and the non-rounding
+      primitives are lossless;
     * accumulations (line sum, discount sum, charge sum, advances) never round;
     * under `precise` a line sum is computed with at least currency + 2
       decimals and is the exact product price × quantity rounded once;
@@ -49,6 +51,41 @@ theorem rescale_point (a : Amount) (e : ℕ) (h : e < a.exp) :
 theorem raise_lossless (a : Amount) (e : ℕ) : (up a e).toRat = a.toRat ∧ a.exp ≤ (up a e).exp := by
   refine ⟨up_toRat a e, ?_⟩
   rw [up_exp]; omega
+
+/-- currency conversion of a foreign item price (`ExchangeRate.Convert`, as
+    repaired by 7d1829e): one rounding of the exact product price × rate, at the
+    document currency's precision, whatever the precision the price is written
+    at (before the repair a price with fewer decimals than the document currency
+    lost the decimals of the product, one with more was rounded twice) -/
+theorem convert_point (r : XRate) (a : Amount) :
+    (convert exactOps r a).exp = r.toSub ∧
+    (convert exactOps r a).value = roundTo r.toSub (a.toRat * r.amount.toRat) := by
+  unfold convert
+  by_cases h : a.exp > r.toSub
+  · simp only [h, if_true, exact_mul, mulX_exp]
+    have hu : up (⟨a.value, r.toSub⟩ : Amount) r.toSub = ⟨a.value, r.toSub⟩ := up_self _ _ (Nat.le_refl _)
+    rw [hu]
+    refine ⟨rfl, ?_⟩
+    rw [mulX_spec]
+    congr 1
+    obtain ⟨d, hd⟩ : ∃ d, a.exp = r.toSub + d := ⟨a.exp - r.toSub, by omega⟩
+    have hd' : r.toSub + d - r.toSub = d := by omega
+    have h1 : ((10 : ℚ) ^ r.toSub) ≠ 0 := by positivity
+    have h2 : ((10 : ℚ) ^ d) ≠ 0 := by positivity
+    have h3 : ((10 : ℚ) ^ r.amount.exp) ≠ 0 := by positivity
+    unfold Amount.toRat pow10
+    simp only [hd, hd']
+    push_cast
+    rw [pow_add, pow_add]
+    field_simp
+  · simp only [h, if_false, exact_mul, mulX_exp]
+    have he : (up a r.toSub).exp = r.toSub := by rw [up_exp]; omega
+    refine ⟨he, ?_⟩
+    rw [mulX_spec, he, up_toRat]
+
+example : convert exactOps ⟨"JPY", "EUR", 2, ⟨61, 4⟩⟩ ⟨1500, 0⟩ = ⟨915, 2⟩ ∧
+    convert exactOps ⟨"USD", "EUR", 2, ⟨49995, 4⟩⟩ ⟨10, 4⟩ = ⟨0, 2⟩ ∧
+    convert exactOps ⟨"EUR", "JPY", 0, ⟨16393, 2⟩⟩ ⟨201, 2⟩ = ⟨329, 0⟩ := by decide +kernel
 
 /-! ## sums never round -/
 
